@@ -250,13 +250,16 @@ class ArmArch(Architecture):
                 arg_regs.append(arg_loc)
                 yield self.move(arg_loc, arg)
             elif isinstance(arg_loc, StackLocation):
-                stack_size += arg_loc.size
+                # The location is relative to the frame pointer of the
+                # callee, which pushes LR and FP in between. So hence -8:
+                sp_offset = arg_loc.offset - 8
+                stack_size = max(stack_size, sp_offset + arg_loc.size)
                 if isinstance(arg, ArmRegister):
                     # Store register on stack:
                     if self.has_option("thumb"):
-                        yield thumb_instructions.Str1(arg, SP, arg_loc.offset)
+                        raise NotImplementedError()
                     else:
-                        yield arm_instructions.Str1(arg, SP, arg_loc.offset)
+                        yield arm_instructions.Str1(arg, SP, sp_offset)
                 elif isinstance(arg, StackLocation):
                     if self.has_option("thumb"):
                         raise NotImplementedError()
@@ -270,11 +273,7 @@ class ArmArch(Architecture):
                         v3 = frame.new_reg(ArmRegister)
 
                         # Destination location:
-                        # Remember that the LR and FP are pushed in between
-                        # So hence -8:
-                        yield arm_instructions.AddImm(
-                            p1, SP, arg_loc.offset - 8
-                        )
+                        yield arm_instructions.AddImm(p1, SP, sp_offset)
                         # Source location:
                         yield arm_instructions.SubImm(p2, self.fp, -arg.offset)
                         yield from self.gen_arm_memcpy(p1, p2, v3, arg.size)
@@ -322,7 +321,17 @@ class ArmArch(Architecture):
             if isinstance(arg_loc, ArmRegister):
                 yield self.move(arg, arg_loc)
             elif isinstance(arg_loc, StackLocation):
-                pass
+                if isinstance(arg, ArmRegister):
+                    # Load the value that the caller stored on the stack:
+                    if self.has_option("thumb"):
+                        raise NotImplementedError()
+                    else:
+                        yield arm_instructions.Ldr1(
+                            arg, self.fp, arg_loc.offset
+                        )
+                else:
+                    # A blob parameter stays in the stack of the caller.
+                    pass
             else:  # pragma: no cover
                 raise NotImplementedError("Parameters in memory not impl")
 
@@ -382,9 +391,11 @@ class ArmArch(Architecture):
                 if regs:
                     r = regs.pop(0)
                 else:
-                    arg_size = self.info.get_size(arg_ty)
-                    r = StackLocation(offset, arg_size)
-                    offset += arg_size
+                    # A value on the stack is stored and loaded as a word:
+                    r = StackLocation(offset, 4)
+                    offset += 4
+            # Keep the stack locations word aligned:
+            offset += -offset % 4
             locations.append(r)
         return locations
 
